@@ -345,15 +345,16 @@ Definition ex_req (c : cookie) : request :=
   {| r_method := str_POST; r_path := ex_path; r_ctype := str_json; r_clen := 2; r_cookie := c;
      r_basic := BNone; r_tls := false; r_host_ok := true |}.
 Definition ex_world : world nat :=
-  {| w_app := 0%nat; w_sess := new_session 3600 900 7 [97]%N s_init |}.
+  {| w_app := 0%nat; w_sess := new_session 3600 900 [7]%N [97]%N s_init |}.
+Definition ex_cookie : cookie := CTok (hex_encode [7]%N).        (* "07" *)
 Definition ex_handler : handler nat unit := fun _ w _ => ({| w_app := S (w_app w); w_sess := w_sess w |}, AHandler tt).
 
 Example chain_premises_satisfiable :
   authenticated ex_env (w_sess ex_world) (ex_req CNone) = false /\
   is_public (r_path (ex_req CNone)) = false /\
   snd (apply_chain (http_register_chain str_POST) ex_handler ex_env ex_world (ex_req CNone)) = AStatus 403 /\
-  snd (apply_chain (http_register_chain str_POST) ex_handler ex_env ex_world (ex_req (CTok 7))) = AHandler tt /\
-  snd (apply_chain (http_register_chain str_GET) ex_handler ex_env ex_world (ex_req (CTok 7))) = AStatus 405.
+  snd (apply_chain (http_register_chain str_POST) ex_handler ex_env ex_world (ex_req ex_cookie)) = AHandler tt /\
+  snd (apply_chain (http_register_chain str_GET) ex_handler ex_env ex_world (ex_req ex_cookie)) = AStatus 405.
 Proof. vm_compute. auto. Qed.
 
 (** * Start-up glue *)
